@@ -1,6 +1,6 @@
 \* intended state graph, quotient by the value state, 2 trees, edit universe u2 (Bare s, f t, Leaf E1, Top I1: additions to EMPTY containers, function edits): every transition logged (TR)
 CONSTANTS DeepCopyRebindsParents = TRUE CopyHookBoundToCopy = TRUE FlattenCopiesTop = FALSE
-          Universe = "u2" MaxTrees = 2 MaxOps = 1000000
+          Lib = "flat" Universe = "u2" MaxTrees = 2 MaxOps = 1000000
 INIT Init
 NEXT Next
 VIEW ViewVal
